@@ -545,6 +545,34 @@ Section KMeans.
       end
     end.
 
+  (* the same with the assignments after every call of assign_and_balance
+     recorded (most recent first): used by the runs to compare the whole
+     trajectory -- the implementation run with max_iter = i stops with the
+     assignments of iteration min(i, last) of a longer run
+     (Proofs/KMeansTrace.v: the state component is [kmeans_iter]) *)
+  Fixpoint kmeans_iter_tr (cur : nat) (points : list vec) (weights : list num) (perm : list nat)
+                          (centers : list vec) (cids : list N) (st : state) (acc : list (list N))
+    : res (state * list (list N)) :=
+    st1 <- assign_and_balance cur points weights perm centers cids st ;;
+    let acc := st_asg st1 :: acc in
+    ncs <- new_centers [8; cur] points (st_asg st1) cids centers ;;
+    let dmoved := map2 (dist A) centers ncs in
+    infl <- (if s_erode cfg then erode cur points (st_asg st1) (length centers) (st_infl st1) dmoved
+             else Ok (st_infl st1)) ;;
+    dm <- r_maxby R [10; cur] dmoved ;;
+    match dm with
+    | None => Panic 8
+    | Some delta_max =>
+      match cur with
+      | O => Ok (mkState (st_asg st1) infl (st_lbs st1) (st_ubs st1), acc)
+      | S cur' =>
+        if klt A delta_max (s_delta_threshold cfg) then Ok (mkState (st_asg st1) infl (st_lbs st1) (st_ubs st1), acc)
+        else
+          lu <- relax_bounds [11; cur] (st_lbs st1) (st_ubs st1) dmoved infl ;;
+          kmeans_iter_tr cur' points weights perm ncs cids (mkState (st_asg st1) infl (fst lu) (snd lu)) acc
+      end
+    end.
+
   (* fn balanced_k_means_with_initial_partition *)
   Definition kmeans_with_initial (num_partitions : N) (points : list vec) (weights : list num)
                                  (part : list N) : res (list N) :=
@@ -562,7 +590,30 @@ Section KMeans.
     let num_partitions := (1 + list_maxN part)%N in
     if (num_partitions <? 2)%N then Ok part
     else kmeans_with_initial num_partitions points weights part.
+  (* KMeans::partition with the trajectory: the assignments after each outer
+     iteration, oldest first ([] when the call returns at once) *)
+  Definition kmeans_trace (points : list vec) (weights : list num) (part : list N) : res (list (list N)) :=
+    let num_partitions := (1 + list_maxN part)%N in
+    if (num_partitions <? 2)%N then Ok []
+    else
+      let cids := center_ids part in
+      if negb (N.of_nat (length cids) =? num_partitions)%N then Panic 2
+      else
+        centers <- mapM (fun '(j, cid) => center [0; j] (select part points cid)) (indexed 0 cids) ;;
+        let n := length points in
+        r <- kmeans_iter_tr (s_max_iter cfg) points weights (seq 0 n) centers cids
+               (mkState part (map (fun _ => k_one A) centers) (repeat (k_zero A) n) (repeat (k_fmax A) n)) [] ;;
+        Ok (rev (snd r)).
 End KMeans.
+
+(* the result of the call, from its trajectory *)
+Definition final_of_trace (part : list N) (r : res (list (list N))) : res (list N) :=
+  match r with
+  | Ok tr => Ok (last tr part)
+  | Err e => Err e
+  | Panic p => Panic p
+  | OutOfFuel => OutOfFuel
+  end.
 
 (* ------------------------------------------------- binary64 check predicates *)
 
